@@ -17,6 +17,13 @@ def sh(cmd, cwd=None, timeout=1800):
 
 
 def main():
+    import signal
+
+    def stop(signum, frame):
+        # a kill from outside (a time limit) must still run the finally blocks below: /repo is never left changed
+        raise SystemExit("seedtest: signal %d" % signum)
+    signal.signal(signal.SIGTERM, stop)
+    signal.signal(signal.SIGHUP, stop)
     sid, props = sys.argv[1], sys.argv[2:]
     d = os.path.join(VERIF, "seeded", sid)
     patch = os.path.join(d, "patch.diff")
